@@ -360,16 +360,18 @@ Proof.
     unfold escrow_share, fee_reserve. cbn [set_status o_status o_rem o_type o_offer]. rewrite Hl, Ht. lia.
 Qed.
 
-Lemma oi_esc_in s app pair from d x s' : OInv ap s -> is_escrow from = false -> esc_in s app pair from d x = Ok s' -> OInv ap s'.
+Lemma outside_not_escrow c : is_outside c = true -> is_escrow c = false.
+Proof. destruct c; try discriminate; reflexivity. Qed.
+Lemma oi_esc_in s app pair from d x s' : OInv ap s -> is_outside from = true -> esc_in s app pair from d x = Ok s' -> OInv ap s'.
 Proof.
-  intros HI Hfr H. destruct (esc_in_eff _ _ _ _ _ _ _ H) as (l & X0 & Hl & ->).
+  intros HI Hfr H. apply outside_not_escrow in Hfr. destruct (esc_in_eff _ _ _ _ _ _ _ H) as (l & X0 & Hl & ->).
   destruct HI as [[HA HS] H2 H3 H4 H5 H6 Ha Hp' H7 H8]. constructor; proj_cbn; try assumption; [split; assumption|].
   intros a p d'. rewrite Hl, at_escrow, (at_other from) by exact Hfr. unfold fadd3. rewrite H7.
   destruct ((app =? a) && (pair =? p) && (d =? d')); lia.
 Qed.
-Lemma oi_esc_out s app pair to d x s' : OInv ap s -> is_escrow to = false -> esc_out s app pair to d x = Ok s' -> OInv ap s'.
+Lemma oi_esc_out s app pair to d x s' : OInv ap s -> is_outside to = true -> esc_out s app pair to d x = Ok s' -> OInv ap s'.
 Proof.
-  intros HI Hto H. destruct (esc_out_eff _ _ _ _ _ _ _ H) as (l & X0 & Hl & ->).
+  intros HI Hto H. apply outside_not_escrow in Hto. destruct (esc_out_eff _ _ _ _ _ _ _ H) as (l & X0 & Hl & ->).
   destruct HI as [[HA HS] H2 H3 H4 H5 H6 Ha Hp' H7 H8]. constructor; proj_cbn; try assumption; [split; assumption|].
   intros a p d'. rewrite Hl, at_escrow, (at_other to) by exact Hto. unfold fadd3. rewrite H7.
   destruct ((app =? a) && (pair =? p) && (d =? d')); lia.
